@@ -64,6 +64,15 @@ theorem C01_C03_reload (cur rec : Option SrvAttrs) :
   rintro c r rfl rfl
   exact reloadDecision_same c r
 
+/-- **C03 / C08 (a rebuilt server gets its state back; a replaced server gets its instances back).**
+    Whenever `reload_server` builds a server object from a record (new, or replacing a changed one) the
+    state adjustment runs for it — it does not stay at the constructor's `up` —, and whenever it replaces a
+    server that held instances their recorded placements are restored. -/
+theorem C03_C08_reload_effects (c r : SrvAttrs) (hne : c ≠ r) (hadApps : Bool) :
+    reloadAdjusts (some c) (some r) true = true ∧ reloadAdjusts none (some r) true = true ∧
+    reloadRestores (some c) (some r) hadApps = hadApps ∧ reloadAdjusts (some c) (some c) true = false := by
+  simp [reloadAdjusts, reloadRestores, reloadDecision, hne]
+
 /-! ### Non-vacuity -/
 example : reloadDecision (some ⟨(8, 4, 2), 0, 3, 7⟩) (some ⟨(8, 4, 2), 0, 1, 7⟩) = .replaced ∧
     reloadDecision (some ⟨(8, 4, 2), 0, 3, 7⟩) (some ⟨(8, 4, 2), 0, 3, 7⟩) = .same ∧
